@@ -269,6 +269,20 @@ def finish(res, level="proof"):
     prop = res.prop
     lines = []
     rc = 0
+    try:
+        import dbsession
+        seen = set()
+        for b, log in dbsession.CONTRACT:
+            key = b.split(";")[0].split(" (")[0]
+            res.extra["pool_contract_breaches"] = res.extra.get("pool_contract_breaches", 0) + 1
+            if key in seen or len(res.oracle_failures) >= 8:
+                continue
+            seen.add(key)
+            res.oracle_failures.append(("# session (tail):\n" + log, "a user of the buffer pool breaks the contract the pool's guarantee rests on (hook H5): " + b))
+        if "pool_contract_breaches" not in res.extra and "dbsession" in sys.modules:
+            res.extra["pool_contract_breaches"] = 0
+    except Exception as ex:   # noqa
+        res.broken.append("contract monitor bookkeeping failed: %s" % ex)
     for fid, what in sorted(res.known_hits.items()):
         lines.append("KNOWN-FINDING: property=%s %s: %s" % (prop, fid, what))
     nviol = 0
